@@ -437,6 +437,86 @@ def threaded_opens(ctx, rng, nthreads, per_thread):
             break
 
 
+def gated_allocators(ctx, rng):
+    """Two allocators, the first stopped (sys.settrace) between `_next_channel`'s map lookup and its counter
+    increment — but only if it does NOT hold the transport lock there (a holder cannot be overtaken).  On the code
+    as it is every caller holds the lock, so the gate is never taken and the two run one after the other."""
+    import sys
+    from paramiko.transport import Transport
+    from pv import lib_chanlock
+    from pv.core import InfraError
+    code = Transport._next_channel.__code__
+    gate_line = lib_chanlock.last_assign_line(Transport._next_channel, "_channel_counter")
+    rig = Rig(True)
+    counter, ids = gen_layout(rng, False)
+    rig.seed(counter, ids)
+    rig._check_alloc = lambda cid: None
+    rig.count_probes = False
+    parked, go, done = threading.Event(), threading.Event(), threading.Event()
+    res = {}
+
+    def tracer(frame, event, arg):
+        if event == "call":
+            return tracer if frame.f_code is code else None
+        if event == "line" and frame.f_code is code and frame.f_lineno == gate_line and not res.get("gated") \
+                and not rig.t.lock.locked():
+            res["gated"] = True
+            parked.set()
+            go.wait(120)
+        return tracer
+
+    def worker():
+        sys.settrace(tracer)
+        try:
+            res["a"] = rig.t.open_channel("session", timeout=60)
+        except Exception as e:  # noqa
+            res["err"] = repr(e)
+        finally:
+            sys.settrace(None)
+            done.set()
+            parked.set()
+
+    th = threading.Thread(target=worker, daemon=True)
+    th.start()
+    if not parked.wait(120):
+        raise InfraError("gated allocator did not reach its gate or finish")
+    second = rng.choice(["local", "peer"])
+    b = None
+    try:
+        if second == "local":
+            b = rig.t.open_channel("session", timeout=60)
+        else:
+            rig.t._parse_channel_open(rig.peer_msg("session"))
+            with rig.t.lock:
+                if rig.t.server_accepts:
+                    b = rig.t.server_accepts.pop()
+    except Exception as e:  # noqa
+        res["err_b"] = repr(e)
+    go.set()
+    if not done.wait(120):
+        raise InfraError("gated allocator did not finish")
+    a = res.get("a")
+    case = {"counter": counter, "sentinels": ids[:30], "second_allocator": second,
+            "first_stopped_between_lookup_and_increment": bool(res.get("gated"))}
+    ctx.case(("gated", counter, tuple(ids), second), True)
+    ctx.dist("gated-allocator-runs")
+    if res.get("gated"):
+        ctx.dist("gate-taken-outside-the-lock")
+    if res.get("err") or res.get("err_b"):
+        ctx.fail("open-channel-raised", case, res.get("err") or res.get("err_b"))
+        return
+    if a is None or b is None:
+        ctx.fail("open-channel-raised", case, "no channel returned")
+        return
+    ia, ib = a.get_id(), b.get_id()
+    if ia == ib or ia in ids or ib in ids:
+        ctx.fail("id-in-use:concurrent-allocators", case, "ids %d and %d (sentinels %r)" % (ia, ib, ids[:10]))
+    elif rig.t._channels.get(ia) is not a or rig.t._channels.get(ib) is not b:
+        ctx.fail("live-channel-overwritten", case, "ids %d / %d" % (ia, ib))
+    if not (0 <= ia < M24 and 0 <= ib < M24):
+        ctx.fail("id-out-of-range", case, "ids %d / %d" % (ia, ib))
+
+
 def run(ctx):
     import logging
     from paramiko.transport import Transport
@@ -534,6 +614,10 @@ def run(ctx):
     for _ in range(60 if ctx.thorough else 12):
         threaded_opens(ctx, rng, 4, 25)
 
+    # ---- two allocators with a statement-level yield point inside _next_channel
+    for _ in range(200 if ctx.thorough else 40):
+        gated_allocators(ctx, rng)
+
 
 META = {
     "claimed": True,
@@ -544,8 +628,12 @@ META = {
               "stay pairwise distinct and 24-bit (live_distinct_24bit), an id held by _parse_channel_open between its "
               "two lock regions is never handed out again (pending_id_reserved) and no registration overwrites a live "
               "channel (no_collision). The model's nextChannel is proved equal to the Lean kernel translated from the "
-              "source of Transport._next_channel on every run (model_eq_generated); the surrounding bookkeeping is tied "
-              "by differential runs through open_channel / _parse_channel_open / close paths."),
+              "source of Transport._next_channel on every run (model_eq_generated); every call site of _next_channel "
+              "holds self.lock (next_channel_sites_locked, generated from the AST of transport.py), which is what makes "
+              "allocation atomic: locked_allocations_distinct / unlocked_allocation_collision_witness (statement-level "
+              "model); the surrounding bookkeeping is tied by differential runs through open_channel / "
+              "_parse_channel_open / close paths, incl. two allocators with a yield point between the map lookup and "
+              "the counter increment."),
     "note": ("Hypothesis (ghost flag `late`): fewer than 2^24 counter advances happen between the allocation and the "
              "registration of one peer-opened channel. Atomicity of open_channel's allocation+put and of each lock "
              "region of _parse_channel_open is taken from the `self.lock` regions of the source; only the transport "
